@@ -68,10 +68,14 @@ var permWallets = []WalletSpec{
 	{Name: "Wallet2", Kind: "nd", Accounts: []string{"acc1", "val-1"}},
 	{Name: "xWallet2", Kind: "nd", Accounts: []string{"acc1"}},
 	{Name: "wallet3", Kind: "nd", Accounts: []string{"acc1"}},
+	{Name: "Empty", Kind: "nd"}, // holds nothing at start-up: whatever it lists was created through Dirk
 }
 
-var walletPatterns = []string{"Wallet1", "Wallet2", ".*", "Wallet.*", "Wallet[12]", "Wallet1|Wallet2", "Wallet2|Wallet1", "^Wallet1$", "wallet1", "WALLET2", "Wallet(1|2)", "Wallet1.?", "x?Wallet2", "Wallet10", "[a-z]+3", "Wallet1|xWallet2|wallet3"}
-var accountPatterns = []string{"", "acc1", "acc.*", "acc1|Acc2", "Acc2|acc1", "val-.*", "ACC1", ".*1", "^acc1$", "acc1.?", "(x)?acc1", "acc(1|10)"}
+var walletPatterns = []string{"Wallet1", "Wallet2", ".*", "Wallet.*", "Wallet[12]", "Wallet1|Wallet2", "Wallet2|Wallet1", "^Wallet1$", "wallet1", "WALLET2", "Wallet(1|2)", "Wallet1.?", "x?Wallet2", "Wallet10", "[a-z]+3", "Wallet1|xWallet2|wallet3", "Empty", "E.*|Wallet1",
+	// escape classes in both polarities, Unicode classes, POSIX classes, the pattern's own text anchors
+	`Wallet\D`, `Wallet\d`, `Wallet\d+`, `\w+2`, `Wallet\S`, `\D+`, `\W?Wallet1`, `[[:alpha:]]+1`, `Wallet\x31`, `Wallet\pN`, `Wallet\PN`, `\AWallet2\z`, `Wallet1\b`, `Wallet\B1`}
+var accountPatterns = []string{"", "acc1", "acc.*", "acc1|Acc2", "Acc2|acc1", "val-.*", "ACC1", ".*1", "^acc1$", "acc1.?", "(x)?acc1", "acc(1|10)",
+	`acc\D`, `acc\d`, `acc\d{2}`, `val\W1`, `val\w1`, `\S+`, `\Aacc1\z`, `[[:^digit:]]+\d`, `acc\PL`}
 
 func drawTable(rc *RunCtx) (refTable, []string) {
 	ch := rc.Ch
@@ -286,7 +290,7 @@ func runList(t *testing.T, rc *RunCtx) {
 		all = append(all, acct{a.Wallet, a.Name, a.PubKey})
 	}
 	pathPool := []string{"Wallet1", "Wallet2", "Wallet10", "xWallet2", "wallet3", "Wallet1/acc1", "Wallet1/acc.*", "Wallet1/acc1|Acc2", "Wallet1/.*1", "Wallet2/val-.*", "Wallet1/made.*",
-		"Nowhere", "Nowhere/acc1", "", "/acc1", "Wallet1/[unclosed", "wallet1", "Wallet1/ACC1", "Wallet1/^acc1$", "Dist"}
+		"Nowhere", "Nowhere/acc1", "", "/acc1", "Empty", "Empty/made.*", "Wallet1/[unclosed", "wallet1", "Wallet1/ACC1", "Wallet1/^acc1$", "Dist"}
 	rounds := 4 + ch.Pick(10, 0)
 	var desc []string
 	// Creations and listings concentrate on one wallet, so that create / list / create / list sequences on the
